@@ -179,7 +179,7 @@ class ModuleInliner:
 
     # ------------------------------------------------------------------ helper eligibility
     def _eligible(self, h: ast.FunctionDef, nested: bool) -> bool:
-        if h.name in self.anchors or any(tok in h.name for tok in self.anchor_stems):
+        if h.name in self.anchors or any(h.name.startswith(tok) for tok in self.anchor_stems):
             return False
         if not nested and not (h.name.startswith("_") and not h.name.startswith("__")):
             return False
@@ -517,8 +517,101 @@ class ModuleInliner:
         return self.tree
 
 
-def normalise_repo(src_repo: str, dst_repo: str, anchors: Set[str], package: str = "quara") -> Dict[str, int]:
-    stats = {"files": 0, "calls_inlined": 0, "files_changed": 0}
+# ------------------------------------------------------------------------------------------------
+class LoopToComprehension:
+    """`L = []` ... `for t in I: L.append(E)`  ->  `L = [E for t in I]`  (also nested loops and an `if` without else around
+    the append).  Sound when L is not mentioned between its binding and the loop, nor inside the loop other than as the
+    receiver of that one append; the loop variables must not be used after the loop (a comprehension does not leak them)."""
+
+    def __init__(self):
+        self.rewritten = 0
+
+    @staticmethod
+    def _mentions(node, name) -> bool:
+        return any(isinstance(n, ast.Name) and n.id == name for n in ast.walk(node))
+
+    def _as_comp(self, loop: ast.For, name: str):
+        gens = []
+        cur = loop
+        while True:
+            if cur.orelse or self._mentions(cur.iter, name) or self._mentions(cur.target, name):
+                return None
+            g = ast.comprehension(target=copy.deepcopy(cur.target), iter=copy.deepcopy(cur.iter), ifs=[], is_async=0)
+            gens.append(g)
+            body = cur.body
+            while len(body) == 1 and isinstance(body[0], ast.If) and not body[0].orelse:
+                if self._mentions(body[0].test, name):
+                    return None
+                g.ifs.append(copy.deepcopy(body[0].test))
+                body = body[0].body
+            if len(body) == 1 and isinstance(body[0], ast.For):
+                cur = body[0]
+                continue
+            if len(body) == 1 and isinstance(body[0], ast.Expr) and isinstance(body[0].value, ast.Call):
+                c = body[0].value
+                if isinstance(c.func, ast.Attribute) and c.func.attr == "append" and isinstance(c.func.value, ast.Name) and c.func.value.id == name \
+                        and len(c.args) == 1 and not c.keywords and not self._mentions(c.args[0], name):
+                    if any(isinstance(n, (ast.Yield, ast.YieldFrom, ast.Await, ast.NamedExpr)) for n in ast.walk(c.args[0])):
+                        return None
+                    return ast.ListComp(elt=copy.deepcopy(c.args[0]), generators=gens)
+            return None
+
+    def _read_outside(self, loop, names) -> bool:
+        inside = {id(n) for n in ast.walk(loop)}
+        for n in ast.walk(self.fn):
+            if isinstance(n, ast.Name) and n.id in names and isinstance(n.ctx, ast.Load) and id(n) not in inside:
+                return True
+        return False
+
+    def block(self, stmts: List[ast.stmt], after: Set[str]) -> List[ast.stmt]:
+        out = list(stmts)
+        i = 0
+        while i < len(out):
+            st = out[i]
+            if isinstance(st, ast.Assign) and len(st.targets) == 1 and isinstance(st.targets[0], ast.Name) \
+                    and isinstance(st.value, ast.List) and not st.value.elts:
+                name = st.targets[0].id
+                j = i + 1
+                while j < len(out) and not self._mentions(out[j], name):
+                    j += 1
+                if j < len(out) and isinstance(out[j], ast.For):
+                    comp = self._as_comp(out[j], name)
+                    loopvars = {n.id for n in ast.walk(out[j]) if isinstance(n, ast.Name) and isinstance(n.ctx, ast.Store)}
+                    # a loop variable read anywhere else in the function could observe the value the loop left behind
+                    if comp is not None and not self._read_outside(out[j], loopvars):
+                        new = ast.Assign(targets=[ast.Name(id=name, ctx=ast.Store())], value=comp)
+                        ast.copy_location(new, out[j])
+                        ast.fix_missing_locations(new)
+                        out[j] = new
+                        del out[i]
+                        self.rewritten += 1
+                        continue
+            i += 1
+        # recurse into compound statements
+        for k, st in enumerate(out):
+            if isinstance(st, (ast.FunctionDef, ast.AsyncFunctionDef, ast.ClassDef)):
+                continue
+            inner_after = after
+            for field in ("body", "orelse", "finalbody"):
+                blk = getattr(st, field, None)
+                if isinstance(blk, list) and blk and isinstance(blk[0], ast.stmt):
+                    setattr(st, field, self.block(blk, inner_after))
+            if isinstance(st, ast.Try):
+                for hd in st.handlers:
+                    hd.body = self.block(hd.body, inner_after)
+        return out
+
+    def run(self, tree: ast.Module) -> ast.Module:
+        for n in ast.walk(tree):
+            if isinstance(n, (ast.FunctionDef, ast.AsyncFunctionDef)):
+                self.fn = n
+                n.body = self.block(n.body, set())
+        ast.fix_missing_locations(tree)
+        return tree
+
+
+def normalise_repo(src_repo: str, dst_repo: str, anchors: Set[str], package: str = "quara", comprehensions: bool = False) -> Dict[str, int]:
+    stats = {"files": 0, "calls_inlined": 0, "files_changed": 0, "loops_rewritten": 0}
     src = os.path.join(src_repo, package)
     for root, dirs, files in os.walk(src):
         dirs[:] = [d for d in dirs if d != "__pycache__"]
@@ -535,10 +628,14 @@ def normalise_repo(src_repo: str, dst_repo: str, anchors: Set[str], package: str
                 tree = ast.parse(text)
                 mi = ModuleInliner(tree, anchors)
                 new = mi.run()
-                if mi.inlined:
+                lc = LoopToComprehension()
+                if comprehensions:
+                    new = lc.run(new)
+                if mi.inlined or lc.rewritten:
                     text = ast.unparse(new) + "\n"
                     stats["files_changed"] += 1
                     stats["calls_inlined"] += mi.inlined
+                    stats["loops_rewritten"] += lc.rewritten
             except (SyntaxError, RecursionError):
                 pass
             with open(os.path.join(dst_repo, rel, fn), "w", encoding="utf-8") as fh:
